@@ -43,7 +43,7 @@ def run(chk):
                 if r.status == "ok" and r.got == r.ideal:
                     chk.traces += 1
                     continue
-                if lrender.lookalike_known(chk, r):
+                if lrender.lookalike_known(chk, r) or lrender.attrs_blank_known(chk, r):
                     continue
                 nbad += 1
                 if nbad <= 3:
